@@ -48,7 +48,7 @@ Wit(W(_)) == \E x \in LocCases : W(x)
 WitV(cl)  == \E x \in ValCases : ValClass(x) = cl
 WitnessAll == ~(/\ lvl = 0 /\ part = 1
                 /\ IF Family = "loc"
-                   THEN ("true" \notin Igns \/ (Wit(WCut) /\ Wit(WOwn))) /\ Wit(WTie) /\ (MaxSeg < 2 \/ Wit(WGlob)) /\ (Kinds \subseteq {"none", "plain"} \/ Wit(WRest))
+                   THEN ("true" \notin Igns \/ (Wit(WOwn) /\ ("none" \notin Kinds \/ Wit(WCut)))) /\ Wit(WTie) /\ (MaxSeg < 2 \/ Wit(WGlob)) /\ (Kinds \subseteq {"none", "plain"} \/ Wit(WRest))
                    ELSE WitV("newline") /\ WitV("both-quote-kinds-and-hash")
                         /\ WitV("quoted-string-with-both-quote-kinds") /\ WitV("other"))
 
